@@ -429,6 +429,145 @@ fn case_strategy(stray: bool) -> impl Strategy<Value = Case> {
         })
 }
 
+// ---------------- node level: beacon written by one real node, read by another ----------------
+
+#[derive(Clone, Debug, Serialize, Deserialize)]
+pub struct NodeBeacon {
+    pub password: Option<String>,
+    /// password of the reading node (None = the same)
+    pub other_password: Option<String>,
+    pub store_hour: u32,
+    /// hours between writing and reading (added to the clock; the stamp has 16 bits, so 65536 - k reads as k hours "ahead")
+    pub age_hours: u32,
+    /// advertised addresses of the writing node (0..=2; with the socket address at most 3 own addresses, all of which are written)
+    pub advertise: u8,
+    /// 0 file as written, 1 embedded in other text, 2 embedded with separators between all characters
+    pub wrap: u8,
+}
+
+static BEACON_FILE_NO: std::sync::atomic::AtomicU64 = std::sync::atomic::AtomicU64::new(0);
+
+/// What `housekeep` does with `beacon_store` / `beacon_load`: node A writes its own addresses to a file, node B
+/// (started `age_hours` later) reads the file and must dial A iff it has the same beacon password and the beacon is
+/// at most 50 hours old in either direction (the limit `load_beacon` passes); otherwise it must stay silent.
+pub fn node_beacon_case(ctx: &Ctx, c: &NodeBeacon) -> Vec<Viol> {
+    use crate::sim::{base_config, sim_addr, NetSim};
+    use vpncloud::payload::Frame;
+    ctx.eval();
+    let cj = || json!({"kind": "node-beacon", "case": c});
+    let mut out = vec![];
+    let dir = format!("{}/target/c17-beacons", crate::engine::verif_dir());
+    let _ = std::fs::create_dir_all(&dir);
+    let path = format!("{}/{}-{}.txt", dir, std::process::id(), BEACON_FILE_NO.fetch_add(1, std::sync::atomic::Ordering::Relaxed));
+    let _ = std::fs::remove_file(&path);
+    let t_store = c.store_hour as i64 * 3600 + 1000;
+    let adv: Vec<String> = (0..c.advertise.min(2)).map(|k| format!("[fd00:77::{}]:{}", k + 1, 4000 + k as u16)).collect();
+    // --- writer
+    let own: Vec<SocketAddr>;
+    {
+        let mut sim: NetSim<Frame> = NetSim::new();
+        sim.now = t_store;
+        MockTimeSource::set_time(t_store);
+        let mut cfg = base_config();
+        cfg.auto_claim = false;
+        cfg.beacon_store = Some(path.clone());
+        cfg.beacon_password = c.password.clone();
+        cfg.advertise_addresses = adv.clone();
+        let a = sim.add_node(&cfg, false);
+        sim.run(3);
+        if let Some((_, p, w)) = sim.panics.first() {
+            out.push(Viol::new(format!("node-beacon-{}", p.sig()), format!("writing node panicked: {} ({})", p.msg, w), cj()));
+            let _ = std::fs::remove_file(&path);
+            return out;
+        }
+        own = sim.nodes[a].node.verif_own_addresses();
+    }
+    let text = match std::fs::read_to_string(&path) {
+        Ok(t) => t,
+        Err(e) => {
+            out.push(Viol::new("node-beacon-not-written", format!("beacon_store = {} but no readable file after 3 housekeeping rounds: {}", path, e), cj()));
+            return out;
+        }
+    };
+    // the file holds exactly the node's own addresses (at most 3 are written; the node has at most 3)
+    let ser = Ser::new(c.password.clone().unwrap_or_default().as_bytes());
+    MockTimeSource::set_time(t_store);
+    let mut listed = ser.decode(&text, Some(0));
+    listed.sort();
+    let mut own_sorted = own.clone();
+    own_sorted.sort();
+    own_sorted.dedup();
+    if listed != own_sorted {
+        out.push(Viol::new("node-beacon-wrong-addresses", format!("node with own addresses {:?} wrote a beacon that decodes to {:?}", own_sorted, listed), cj()));
+    }
+    // optionally embed the beacon in other text, as a web page or DNS TXT record would
+    let wrapped = match c.wrap {
+        0 => None,
+        1 => Some(format!("<html><body>\nstatus: ok 17\n<p>{}</p>\n-- \n</body></html>\n", text.trim())),
+        _ => Some(format!("# {}\n", text.trim().chars().map(|ch| ch.to_string()).collect::<Vec<_>>().join("-\n "))),
+    };
+    if let Some(w) = wrapped {
+        let _ = std::fs::remove_file(&path);
+        if std::fs::write(&path, w).is_err() {
+            return out;
+        }
+    }
+    // --- reader, age_hours later
+    let t_load = t_store + c.age_hours as i64 * 3600;
+    let same_pw = c.other_password.is_none() || c.other_password == c.password;
+    let fresh = age_ok(t_load / 3600, t_store / 3600, 50);
+    {
+        let mut sim: NetSim<Frame> = NetSim::new();
+        sim.now = t_load;
+        MockTimeSource::set_time(t_load);
+        let mut cfg = base_config();
+        cfg.auto_claim = false;
+        let a = sim.add_node(&cfg, false); // the writer's process, still listening on its address
+        let mut cfgb = base_config();
+        cfgb.auto_claim = false;
+        cfgb.beacon_load = Some(path.clone());
+        cfgb.beacon_password = if c.other_password.is_some() { c.other_password.clone() } else { c.password.clone() };
+        let b = sim.add_node(&cfgb, false);
+        sim.record = true;
+        sim.run(4);
+        if let Some((i, p, w)) = sim.panics.first() {
+            out.push(Viol::new(format!("node-beacon-{}", p.sig()), format!("node {} panicked while loading the beacon: {} ({})", i, p.msg, w), cj()));
+        } else {
+            let connected = sim.is_connected(b, a) && sim.is_connected(a, b);
+            let b_addr = sim_addr(b);
+            let dialled: Vec<SocketAddr> = sim.wire_log.iter().filter(|d| d.src == b_addr).map(|d| d.dst).collect();
+            if same_pw && fresh {
+                if !connected {
+                    out.push(Viol::new(
+                        "node-beacon-not-followed",
+                        format!("reader with the same password, beacon {} h old (limit 50): not connected to the writer after 4 s; datagrams sent by the reader went to {:?}", c.age_hours, dialled),
+                        cj(),
+                    ));
+                }
+                for o in &own_sorted {
+                    if !dialled.contains(o) {
+                        out.push(Viol::new("node-beacon-address-not-dialled", format!("address {} of the beacon was never dialled (dialled: {:?})", o, dialled), cj()));
+                        break;
+                    }
+                }
+                ctx.class("node-beacon:followed");
+            } else {
+                if !dialled.is_empty() || connected {
+                    out.push(Viol::new(
+                        "node-beacon-followed-wrongly",
+                        format!("reader (same password: {}, beacon age {} h, limit 50) dialled {:?}", same_pw, c.age_hours, dialled),
+                        cj(),
+                    ));
+                }
+                ctx.class(if same_pw { "node-beacon:ignored-out-of-age" } else { "node-beacon:ignored-other-password" });
+            }
+            ctx.nontrivial(&("node-beacon", &c.password, &c.other_password, c.store_hour, c.age_hours, c.advertise, c.wrap));
+        }
+    }
+    let _ = std::fs::remove_file(&path);
+    out
+}
+
 pub fn run(ctx: &Ctx) {
     ctx.rule(
         "case = (password, address lists with 0..8 IPv4 + 0..4 IPv6 entries, host text built from pieces \
@@ -571,6 +710,27 @@ pub fn run(ctx: &Ctx) {
         },
     );
     ctx.subspace("proptest: arbitrary printable unicode text up to 200 chars", n3 as u64, false);
+    // (8) node level: a real node writes the beacon file, another real node reads it (what housekeeping does)
+    let mut nb = vec![];
+    let pw_list = [None, Some("mysecretkey".to_string()), Some("p\u{e4}ss w\u{f6}rd".to_string())];
+    for (pi, pw) in pw_list.iter().enumerate() {
+        for age in [0u32, 1, 49, 50, 51, 52, 1000, 65536 - 51, 65536 - 50, 65536 - 1, 65536] {
+            for store_hour in ctx.tier.pick(vec![5u32, 65530], vec![0u32, 5, 539, 540, 541, 40000, 65500, 65530]) {
+                let k = nb.len();
+                nb.push(NodeBeacon { password: pw.clone(), other_password: None, store_hour, age_hours: age, advertise: (k % 3) as u8, wrap: ((k / 3) % 3) as u8 });
+                if age <= 1 {
+                    nb.push(NodeBeacon { password: pw.clone(), other_password: Some(pw_list[(pi + 1) % 3].clone().unwrap_or_default()), store_hour, age_hours: age, advertise: (k % 3) as u8, wrap: 0 });
+                }
+            }
+        }
+    }
+    let nnb = nb.len() as u64;
+    ctx.par_items(&nb, |_, c| {
+        let v = node_beacon_case(ctx, c);
+        ctx.report(v);
+    });
+    ctx.sample("node-beacon", || serde_json::to_value(&nb[7]).unwrap());
+    ctx.subspace("node level: beacon file written by a real node (own addresses, 0..2 advertised) and read by another one x 3 passwords x ages around the 50 h limit in both directions x store hours x embedding; other password", nnb, false);
     if std::env::var("VCHECK_FUZZ").is_ok() && !ctx.quick() {
         crate::fuzzdrv::run_campaign(ctx, "beacon_text", 200000);
     }
@@ -580,7 +740,12 @@ pub fn replay(ctx: &Ctx, case: &Value) {
     if crate::fuzzdrv::replay(ctx, case) {
         return;
     }
-    if let Ok(c) = serde_json::from_value::<Case>(case.clone()) {
+    if case["kind"].as_str() == Some("node-beacon") {
+        if let Ok(c) = serde_json::from_value::<NodeBeacon>(case["case"].clone()) {
+            let v = node_beacon_case(ctx, &c);
+            ctx.report(v);
+        }
+    } else if let Ok(c) = serde_json::from_value::<Case>(case.clone()) {
         let v = check_case(ctx, &c);
         ctx.report(v);
     } else if let (Some(pw), Some(text)) = (case["password"].as_str(), case["text"].as_str()) {
